@@ -111,5 +111,8 @@ def choose(
     """
     choices = numpoly.aspolynomial(choices)
     a = numpy.asarray(a)
-    result = numpy.choose(a, choices=choices.values, out=out, mode=mode)
+    # a 0-d selection comes back as a numpy.void scalar, not as an array.
+    result = numpy.asarray(
+        numpy.choose(a, choices=choices.values, out=out, mode=mode)
+    )
     return numpoly.aspolynomial(result, names=choices.indeterminants)
